@@ -370,6 +370,25 @@ def bounded(rep, tier):
             continue
         if got != want:
             rep.add_bounded(Bounded(cid, False, sql, f'pushed text `{pushed}` returns {got}'[:250], f'{want}', bound=f'{len(QUERIES)} queries'))
+    # wherever a SELECT over one integration is pushed down (top level, source of INSERT / CREATE TABLE, sub-select of a larger plan), under every kind of
+    # default namespace: no identifier of the pushed text still carries the integration's own name
+    for sc in plans.generated_scenarios(tier):
+        qname = sc['source'].split(':')[2]
+        if not qname.startswith(('single-', 'insert-select', 'create-table', 'subselect-from', 'case-qualifier', 'three-part')):
+            continue
+        n += 1
+        try:
+            q_, pl_, plan_, e_, kw_ = plans.run_scenario(sc)
+        except Exception:
+            continue
+        if e_ is not None or plan_ is None:
+            continue
+        left = plans.unstripped_qualifiers(plan_)
+        if left:
+            integ, ident, text = left[0]
+            rep.add_bounded(Bounded(f'C11.bounded.qualifier-left.{qname}', False, sc['sql'], f'[{sc["catalog"]}] the query sent to {integ!r} still names `{ident}`: `{text[:150]}`',
+                                    'identifiers without the integration qualifier', bound='scenario family x catalogs'))
+            break
     try:
         for sql, msg in plans.reuse_history_problems():
             rep.add_bounded(Bounded('C11.bounded.planner-reuse', False, sql, msg, 'the plan of the statement planned alone', bound='re-use sequences'))
